@@ -15,7 +15,7 @@
 (* invariants state the documented meaning declaratively: the final sum is   *)
 (* the minimum, over ALL assignments of reads to haplotypes, of the number   *)
 (* of mismatching called bases.                                              *)
-EXTENDS Integers, Sequences, FiniteSets, TLC, Json
+EXTENDS Integers, Sequences, FiniteSets, TLC, Json, MecDefs
 
 CONSTANTS Shapes,   \* set of records [N, A, P, R]: SNVs, alleles per SNV, ploidy, reads
           Mut       \* "none" or a seeded model mutation
@@ -32,10 +32,8 @@ Code(c) == CodeFrom(c, Len(c))
 NonDecreasing(rs) == \A i \in 1..(Len(rs) - 1) : Code(rs[i]) <= Code(rs[i + 1])
 
 (* ---- the declarative definition ------------------------------------------- *)
-Mismatches(read, hap) == Cardinality({j \in 1..Len(read) : read[j] >= 0 /\ read[j] # hap[j]})
 RECURSIVE CostOf(_, _, _, _)
 CostOf(rs, g, f, k) == IF k = 0 THEN 0 ELSE Mismatches(rs[k], g[f[k]]) + CostOf(rs, g, f, k - 1)
-SetMin(S) == CHOOSE x \in S : \A y \in S : x <= y
 (* the minimum number of corrected base calls over every assignment of reads to haplotypes *)
 ErrorCorrection(rs, g) ==
   IF Len(rs) = 0 THEN 0
